@@ -208,8 +208,39 @@ pub fn run(ctx: &Ctx, reg: &Registry) -> i32 {
         children.push((mib, progress, child));
     }
     for (mib, progress, child) in children {
-        let out = child.and_then(|c| c.wait_with_output());
+        // the child is watched by its own CPU time: 120 s of it on the deep payloads means one of the calls does not
+        // return (an always-stop run of every subject on eight payloads normally takes a few seconds)
+        let out = child.and_then(|mut c| {
+            let pid = c.id();
+            let mut stuck = None;
+            loop {
+                if c.try_wait()?.is_some() {
+                    break;
+                }
+                std::thread::sleep(std::time::Duration::from_millis(500));
+                if let Some(t) = monitor::watch::cpu_ticks_of(&format!("/proc/{pid}/stat")) {
+                    if t / 100 >= 120 {
+                        stuck = Some(t / 100);
+                        let _ = c.kill();
+                        let _ = c.wait();
+                        break;
+                    }
+                }
+            }
+            if let Some(secs) = stuck {
+                let last = std::fs::read_to_string(&progress).unwrap_or_default();
+                acc.violation(
+                    format!("C12/did-not-return-deep/{}", last.split('|').next().unwrap_or("?")),
+                    "deserialize did not return on a depth-128 payload",
+                    json!({"stack_mib": mib, "cpu_seconds": secs, "last_case(subject|payload|script)": last}),
+                );
+                let _ = std::fs::remove_file(&progress);
+                return Err(std::io::Error::new(std::io::ErrorKind::TimedOut, "reported"));
+            }
+            c.wait_with_output()
+        });
         match out {
+            Err(e) if e.kind() == std::io::ErrorKind::TimedOut => {}
             Err(e) => acc.inconclusive(format!("child process could not be started: {e}")),
             Ok(o) => {
                 let stdout = String::from_utf8_lossy(&o.stdout).to_string();
